@@ -207,6 +207,7 @@ def plan(tier, seed):
     shards.append(("catalogue",))
     shards.append(("bigframe",))
     shards.append(("callers",))
+    shards += [("dset", 5, 4)] if tier == "quick" else [("dset", 6, 4), ("dset", 5, 5)]
     for c in range(8):
         shards.append(("peaksearcher", c, 8, tier))
     for c in range(4):
@@ -485,7 +486,86 @@ def _run_callers(desc):
     return sh
 
 
+def _run_dset(desc):
+    """the disjoint set behind both levels of the merging (src/blobs.c: dset_new / dset_makeunion / dset_find / dset_compress, called by
+    connectedpixels for touching pixels and by bloboverlaps for overlapping blobs): EVERY sequence of up to `depth` unions on `n`
+    labels, both argument orders, executed on the real functions (DFS, the array copied at each node) against a reference partition:
+    after every union two labels have the same root iff they were joined, and the compressed numbering has one peak per class"""
+    _, n, depth = desc
+    import ctypes
+    sh = Shard()
+    L = ctypes.CDLL(os.path.join(os.environ["VT_ROOT"], "lib", "libid11_plain.so"))
+    libc = ctypes.CDLL(None)
+    libc.free.argtypes = [ctypes.c_void_p]
+    P32 = ctypes.POINTER(ctypes.c_int32)
+    L.dset_initialise.restype = ctypes.c_void_p
+    L.dset_new.restype = ctypes.c_void_p
+    L.dset_new.argtypes = [ctypes.POINTER(ctypes.c_void_p), P32]
+    L.dset_makeunion.argtypes = [ctypes.c_void_p, ctypes.c_int32, ctypes.c_int32]
+    L.dset_makeunion.restype = None
+    L.dset_find.argtypes = [ctypes.c_int32, ctypes.c_void_p]
+    L.dset_find.restype = ctypes.c_int32
+    L.dset_compress.argtypes = [ctypes.POINTER(ctypes.c_void_p), P32]
+    L.dset_compress.restype = ctypes.c_void_p
+    size = 16
+    S0 = ctypes.c_void_p(L.dset_initialise(size))
+    v = ctypes.c_int32(0)
+    for _ in range(n):
+        S0 = ctypes.c_void_p(L.dset_new(ctypes.byref(S0), ctypes.byref(v)))
+    init = np.ctypeslib.as_array(ctypes.cast(S0, P32), shape=(size,)).copy()
+    libc.free(S0)
+    pairs = [(a, b) for a in range(1, n + 1) for b in range(1, n + 1) if a != b]
+
+    def roots(S):
+        q = S.copy()
+        return [L.dset_find(x, q.ctypes.data) for x in range(1, n + 1)]
+
+    def compressed(S):
+        q = S.copy()
+        pq = ctypes.c_void_p(q.ctypes.data)
+        npk = ctypes.c_int32(-1)
+        T = L.dset_compress(ctypes.byref(pq), ctypes.byref(npk))
+        t = np.ctypeslib.as_array(ctypes.cast(T, P32), shape=(n + 1,)).copy()
+        libc.free(T)
+        return t[1:], npk.value
+    stack = [(init, tuple(range(n)), [])]           # (array, reference class of every label, history)
+    seen_partitions = set()
+    while stack:
+        S, ref, hist = stack.pop()
+        for a, b in pairs:
+            if len(hist) == 0 and a > b:
+                continue                         # the first union in one argument order only (the other is its mirror image at depth 1)
+            S2 = S.copy()
+            L.dset_makeunion(S2.ctypes.data, a, b)
+            ca, cb = ref[a - 1], ref[b - 1]
+            ref2 = tuple(ca if c == cb else c for c in ref)
+            h2 = hist + [(a, b)]
+            sh.transitions += 1
+            r = roots(S2)
+            same_lib = [[r[i] == r[j] for j in range(n)] for i in range(n)]
+            same_ref = [[ref2[i] == ref2[j] for j in range(n)] for i in range(n)]
+            case = {"kind": "dset", "labels": n, "unions": [list(x) for x in h2]}
+            if same_lib != same_ref:
+                sh.violation("dset:labels-joined-by-unions-do-not-share-a-root", case, {"roots": r, "array": S2[:n + 1].tolist()})
+                return sh
+            t, npk = compressed(S2)
+            if npk != len(set(ref2)) or [[t[i] == t[j] for j in range(n)] for i in range(n)] != same_ref or sorted(set(t.tolist())) != list(range(1, npk + 1)):
+                sh.violation("dset_compress:numbering-is-not-one-peak-per-class", case, {"numbering": t.tolist(), "npeaks": int(npk), "classes": len(set(ref2))})
+                return sh
+            seen_partitions.add(tuple(ref2.index(c) for c in ref2))
+            if len(h2) < depth:
+                stack.append((S2, ref2, h2))
+    sh.evaluations += sh.transitions
+    sh.nontrivial += sh.transitions
+    sh.states += len(seen_partitions)
+    sh.outcomes.add(("dset", n, depth))
+    sh.sample({"kind": "dset", "labels": n, "depth": depth, "sequences": int(sh.transitions), "partitions": len(seen_partitions)}, limit=1)
+    return sh
+
+
 def run_shard(desc):
+    if desc[0] == "dset":
+        return _run_dset(desc)
     if desc[0] == "callers":
         return _run_callers(desc)
     if desc[0] == "seq":
@@ -500,6 +580,9 @@ def run_shard(desc):
 
 
 def replay(case):
+    if case.get("kind") == "dset":
+        r = _run_dset(("dset", case["labels"], len(case["unions"])))
+        return (not r.violations), {"violations": r.violations[:2]}
     if case.get("kind") == "callers":
         r = _run_callers(("callers",))
         v = [x for x in r.violations if x["case"]["calls"] == case["calls"]]
